@@ -1,10 +1,11 @@
 (** C08  DPoS finality.  Only statements, each closed by [exact] of a lemma proved in
-    Dpos/LibProofs.v, Dpos/LibOnMain.v, Dpos/LibQuorum.v, Dpos/LibQuorumHist.v, Dpos/LibRestart.v, Dpos/ElectionProofs.v or
+    Dpos/LibProofs.v, Dpos/LibOnMain.v, Dpos/LibQuorum.v, Dpos/LibQuorumHist.v, Dpos/LibRestart.v, Dpos/ElectionProofs.v, Dpos/ElectionMemProofs.v or
     Dpos/ProtocolProofs.v, followed by [Print Assumptions].
     Model: Dpos/Lib.v (libStatus/Status/node, after the repairs F9, F21, F22), Dpos/Election.v
-    (bp.Snapshots / bp.Cluster / GetRankers around the status, after F23, F24), Dpos/Protocol.v. *)
+    (bp.Snapshots / bp.Cluster / GetRankers around the status: [mnode] is the code as it is, with the
+    ranking cut at the in-memory BPCOUNT; F24 repaired), Dpos/Protocol.v. *)
 From Coq Require Import ZArith List Bool.
-From Verif Require Import Dpos.Lib Dpos.LibProofs Dpos.LibOnMain Dpos.LibQuorum Dpos.LibQuorumHist Dpos.LibRestart Dpos.LibExamples Dpos.Election Dpos.ElectionProofs
+From Verif Require Import Dpos.Lib Dpos.LibProofs Dpos.LibOnMain Dpos.LibQuorum Dpos.LibQuorumHist Dpos.LibRestart Dpos.LibExamples Dpos.Election Dpos.ElectionProofs Dpos.ElectionMemProofs Dpos.AgreementLock
   Dpos.Protocol Dpos.ProtocolInv Dpos.ProtocolProofs.
 Import ListNotations.
 Open Scope Z_scope.
@@ -194,36 +195,80 @@ Theorem C08_agreement_refuted_equivocation_only :
 Proof. exact agreement_refuted_equivocation_only. Qed.
 Print Assumptions C08_agreement_refuted_equivocation_only.
 
+(** ... and when no correct producer signs anything at all: the 2/3 rule counts map entries. *)
+Theorem C08_agreement_refuted_single_producer :
+  exists w, prun (init_world 4 [3]) solo_history = Some w /\ few_faults w = true /\ ~ agreement w.
+Proof. exact agreement_refuted_single_producer. Qed.
+Print Assumptions C08_agreement_refuted_single_producer.
+
+(** The stronger agreement_partial of DESIGN.md, at the level of the rule (abstract block tree and
+    views): LIBs below the proposals of 2n/3+1 distinct producers of the same n, proposals below
+    the establishing blocks, a lock on correct producers, f < n/3 => the LIBs are on one branch.
+    Dpos/AgreementLock.v ends with what is missing to instantiate it for the implementation. *)
+Theorem C08_agreement_under_lock : forall parent u byz v1 v2 Q1 Q2,
+  NoDup u ->
+  let n := Z.of_nat (length u) in
+  3 * Z.of_nat (length byz) < n ->
+  supported parent u v1 Q1 -> supported parent u v2 Q2 ->
+  2 * n / 3 + 1 <= Z.of_nat (length Q1) -> 2 * n / 3 + 1 <= Z.of_nat (length Q2) ->
+  locked parent byz v1 v2 ->
+  anc parent (v_lib v1) (v_lib v2) \/ anc parent (v_lib v2) (v_lib v1).
+Proof. exact agreement_under_lock. Qed.
+Print Assumptions C08_agreement_under_lock.
+
 (** * Block-producer election (bp/cluster.go around Status.Update) *)
 
-(** The producer set installed in a node after any history (forks, reorganisations across
-    election boundaries, vetoes, restarts) is the one its main chain determines: the genesis list
-    below the bootstrap height, else the first BPCOUNT entries of the vote ranking committed by
-    the main-chain block at the reference height snapBlockNo(best). *)
-Theorem C08_cluster_function_of_chain : forall sto gen nd, reachable sto gen nd ->
+(** "The producer set a node uses is a function of its main chain" is FALSE of the code: GetRankers
+    cuts the ranking of the reference block at the node's in-memory BPCOUNT, so after a DAO change
+    of BPCOUNT a node and the same node restarted (same main chain) install different producer sets
+    (known finding C08:bp-snapshot-bpcount-from-memory). *)
+Theorem C08_cluster_function_of_chain_refuted :
+  exists sto gen self evs,
+    Forall ev_ok evs /\
+    mn_main (mrestart sto gen (mrun sto gen (minit_node sto gen self) evs)) =
+      mn_main (mrun sto gen (minit_node sto gen self) evs) /\
+    m_cluster (mrestart sto gen (mrun sto gen (minit_node sto gen self) evs)) <>
+      m_cluster (mrun sto gen (minit_node sto gen self) evs).
+Proof. exact cluster_function_of_chain_refuted. Qed.
+Print Assumptions C08_cluster_function_of_chain_refuted.
+
+(** Partial: if BPCOUNT never changes (every state stores n0), then after any history (forks,
+    reorganisations across election boundaries, vetoes, restarts) the installed producer set is the
+    one the main chain determines: the genesis list below the bootstrap height, else the first n0
+    entries of the vote ranking committed by the main-chain block at snapBlockNo(best). *)
+Theorem C08_cluster_function_of_chain_partial : forall rank n0 gen nd, mreachable rank n0 gen nd ->
+  cluster_spec (fun id => (rank id, n0)) gen (mn_main nd) (Z.of_nat (length (mn_main nd)) - 1) = Some (m_cluster nd).
+Proof. exact cluster_function_of_chain_partial. Qed.
+Print Assumptions C08_cluster_function_of_chain_partial.
+
+Theorem C08_same_chain_same_producers_partial : forall rank n0 gen nd1 nd2,
+  mreachable rank n0 gen nd1 -> mreachable rank n0 gen nd2 ->
+  mn_main nd1 = mn_main nd2 -> m_cluster nd1 = m_cluster nd2.
+Proof. exact same_chain_same_producers_partial. Qed.
+Print Assumptions C08_same_chain_same_producers_partial.
+
+Theorem C08_restart_same_producers_partial : forall rank n0 gen nd, mreachable rank n0 gen nd ->
+  m_cluster (mrestart (fun id => (rank id, n0)) gen nd) = m_cluster nd.
+Proof. exact restart_same_producers_partial. Qed.
+Print Assumptions C08_restart_same_producers_partial.
+
+(** The same statement for the election functions with the ranking cut at the BPCOUNT of the
+    state it is read from (what the not-applied repair computes), for any BPCOUNT history. *)
+Theorem C08_cluster_function_of_chain_state_cut : forall sto gen nd, reachable sto gen nd ->
   cluster_spec sto gen (en_main nd) (Z.of_nat (length (en_main nd)) - 1) = Some (sn_cluster (e_sn nd)).
 Proof. exact cluster_function_of_chain. Qed.
-Print Assumptions C08_cluster_function_of_chain.
+Print Assumptions C08_cluster_function_of_chain_state_cut.
 
-Theorem C08_same_chain_same_producers : forall sto gen nd1 nd2,
-  reachable sto gen nd1 -> reachable sto gen nd2 ->
-  en_main nd1 = en_main nd2 -> sn_cluster (e_sn nd1) = sn_cluster (e_sn nd2).
-Proof. exact same_chain_same_producers. Qed.
-Print Assumptions C08_same_chain_same_producers.
-
-Theorem C08_restart_same_producers : forall sto gen nd, reachable sto gen nd ->
-  sn_cluster (e_sn (erestart sto gen nd)) = sn_cluster (e_sn nd).
-Proof. exact restart_same_producers. Qed.
-Print Assumptions C08_restart_same_producers.
-
-(** confirmsRequired is 2n/3+1 of the CURRENT producer count in every reachable node. *)
-Theorem C08_confirms_required_current : forall sto gen nd, reachable sto gen nd ->
-  ls_cr (e_ls nd) = confirms_required (esize (e_sn nd)).
-Proof. exact confirms_required_current. Qed.
+(** confirmsRequired is 2n/3+1 of the CURRENT producer count in every reachable node of the model
+    of the code as it is (any history, any BPCOUNT changes; uses the committed repair F24). *)
+Theorem C08_confirms_required_current : forall sto gen self evs,
+  m_cr_ok (mrun sto gen (minit_node sto gen self) evs).
+Proof. exact confirms_required_current_mem. Qed.
 Print Assumptions C08_confirms_required_current.
 
 (** When Update of a boundary block installs a new producer set, only its members keep an entry
-    in the proposal map: a retired producer's proposals are not counted after the boundary. *)
+    in the proposal map: a retired producer's proposals are not counted after the boundary
+    (for any cut, in particular the in-memory one). *)
 Theorem C08_retired_producers_dropped : forall sto gen g s blk sn' bps,
   (k_id (st_best (es_st s)) =? k_prev blk) = true ->
   add_snapshot sto gen g (es_sn s) blk = (sn', bps) -> bps <> [] ->
@@ -232,20 +277,22 @@ Theorem C08_retired_producers_dropped : forall sto gen g s blk sn' bps,
 Proof. exact retired_producers_dropped. Qed.
 Print Assumptions C08_retired_producers_dropped.
 
-(** The node-local finality clauses with elections (changing producer set and confirmsRequired). *)
-Theorem C08_e_lib_monotone : forall sto gen self evs1 evs2, Forall ev_ok (evs1 ++ evs2) ->
-  e_lib_no (erun sto gen (einit_node gen self) evs1) <=
-  e_lib_no (erun sto gen (einit_node gen self) (evs1 ++ evs2)).
-Proof. exact e_lib_monotone. Qed.
-Print Assumptions C08_e_lib_monotone.
+(** The node-local finality clauses with elections (changing producer set and confirmsRequired),
+    partial: constant BPCOUNT. *)
+Theorem C08_m_lib_monotone_partial : forall rank n0 gen self evs1 evs2, Forall ev_ok (evs1 ++ evs2) ->
+  e_lib_no (m_enode (mrun (fun id => (rank id, n0)) gen (minit_node (fun id => (rank id, n0)) gen self) evs1)) <=
+  e_lib_no (m_enode (mrun (fun id => (rank id, n0)) gen (minit_node (fun id => (rank id, n0)) gen self) (evs1 ++ evs2))).
+Proof. exact m_lib_monotone_partial. Qed.
+Print Assumptions C08_m_lib_monotone_partial.
 
-Theorem C08_e_finalized_never_undone : forall sto gen self evs1 evs2 h b, Forall ev_ok (evs1 ++ evs2) ->
-  0 <= h <= e_lib_no (erun sto gen (einit_node gen self) evs1) ->
-  e_main_at (erun sto gen (einit_node gen self) evs1) h = Some b ->
-  e_main_at (erun sto gen (einit_node gen self) (evs1 ++ evs2)) h = Some b.
-Proof. exact e_finalized_never_undone. Qed.
-Print Assumptions C08_e_finalized_never_undone.
+Theorem C08_m_finalized_never_undone_partial : forall rank n0 gen self evs1 evs2 h b, Forall ev_ok (evs1 ++ evs2) ->
+  0 <= h <= e_lib_no (m_enode (mrun (fun id => (rank id, n0)) gen (minit_node (fun id => (rank id, n0)) gen self) evs1)) ->
+  main_get (mn_main (mrun (fun id => (rank id, n0)) gen (minit_node (fun id => (rank id, n0)) gen self) evs1)) h = Some b ->
+  main_get (mn_main (mrun (fun id => (rank id, n0)) gen (minit_node (fun id => (rank id, n0)) gen self) (evs1 ++ evs2))) h = Some b.
+Proof. exact m_finalized_never_undone_partial. Qed.
+Print Assumptions C08_m_finalized_never_undone_partial.
 
-Theorem C08_e_lib_on_main_chain : forall sto gen nd, reachable sto gen nd -> lib_on_main (proj nd) = true.
-Proof. exact e_lib_on_main_chain. Qed.
-Print Assumptions C08_e_lib_on_main_chain.
+Theorem C08_m_lib_on_main_chain_partial : forall rank n0 gen nd, mreachable rank n0 gen nd ->
+  lib_on_main (proj (m_enode nd)) = true.
+Proof. exact m_lib_on_main_chain_partial. Qed.
+Print Assumptions C08_m_lib_on_main_chain_partial.
